@@ -393,3 +393,41 @@ package compiler
 //@   ensures  noerr: result.1 == nil && result.0 == def
 //@   ensures  renamed: old(renameSelects(pass, def.ConstantReference.ReferredPkg, def.ConstantReference.ReferredType)) ==> def.ConstantReference.ReferredType == pass.To
 //@   ensures  untouched: !old(renameSelects(pass, def.ConstantReference.ReferredPkg, def.ConstantReference.ReferredType)) ==> def.ConstantReference.ReferredType == old(def.ConstantReference.ReferredType)
+//
+// C06 - the rewrites a language chain relies on establish their normal form where they apply.
+//
+// not_required_as_nullable: after the pass a non-required field is nullable; name and requiredness
+// are kept.
+//@ func (*NotRequiredFieldAsNullableType).processStructField
+//@   property C06
+//@   requires pass != nil && visitor != nil
+//@   ensures  nullable: result.1 == nil && !field.Required ==> result.0.Type.Nullable
+//@   ensures  kept: result.1 == nil ==> result.0.Name == field.Name && result.0.Required == field.Required && result.0.Comments == field.Comments
+//
+// disjunction_with_null_to_optional: a two-branch `T | null` union is replaced by T made nullable
+// (so no two-branch union with a null branch is returned); any other union is returned as it was.
+//@ func (*DisjunctionWithNullToOptional).processDisjunction
+//@   property C06
+//@   requires pass != nil && def.Kind == ast.KindDisjunction
+//@   modifies spare-capacity
+//@   ensures  noerr: result.1 == nil
+//@   ensures  other: !(len(def.Disjunction.Branches) == 2 && (isNull(def.Disjunction.Branches[0]) || isNull(def.Disjunction.Branches[1]))) ==> result.0 == def
+//@   ensures  left: len(def.Disjunction.Branches) == 2 && isNull(def.Disjunction.Branches[1]) && !isNull(def.Disjunction.Branches[0]) ==> result.0.Nullable && result.0.Kind == old(def.Disjunction.Branches[0].Kind) && with(with(result.0, "Nullable", old(def.Disjunction.Branches[0].Nullable)), "PassesTrail", old(def.Disjunction.Branches[0].PassesTrail)) == old(def.Disjunction.Branches[0])
+//@   ensures  right: len(def.Disjunction.Branches) == 2 && isNull(def.Disjunction.Branches[0]) && !isNull(def.Disjunction.Branches[1]) ==> result.0.Nullable && result.0.Kind == old(def.Disjunction.Branches[1].Kind) && with(with(result.0, "Nullable", old(def.Disjunction.Branches[1].Nullable)), "PassesTrail", old(def.Disjunction.Branches[1].PassesTrail)) == old(def.Disjunction.Branches[1])
+//
+// prefix_enum_values (Go): every member keeps its type and value; its name becomes the camel-cased
+// object name followed by a non-empty suffix derived from the member.
+//@ func (*PrefixEnumValues).processEnum
+//@   property C06
+//@   requires pass != nil && def.Kind == ast.KindEnum
+//@   modifies def.Enum.Values
+//@   ensures  same: result.Kind == ast.KindEnum && result.Enum == def.Enum
+//@   ensures  members: len(def.Enum.Values) == old(len(def.Enum.Values)) && (forall v: int :: 0 <= v && v < len(def.Enum.Values) ==> def.Enum.Values[v].Type == old(def.Enum.Values[v].Type) && def.Enum.Values[v].Value == old(def.Enum.Values[v].Value))
+//@   loop 0:
+//@     invariant fresh: base(values) != 0 && fresh(values)
+//@     invariant len: len(values) == $i + 1
+//@     invariant members: forall v: int :: 0 <= v && v < len(values) ==> values[v].Type == old(def.Enum.Values[v].Type) && values[v].Value == old(def.Enum.Values[v].Value)
+//
+//@ func (*PrefixEnumValues).enumMemberNameFromValue
+//@   pure
+//@   modifies nothing
